@@ -244,7 +244,6 @@ func job(sc scen, cfg vsched.Config) sdrv.Job {
 	}
 }
 
-
 // getOrCreate calls the cache and reports whether the create callback ran on behalf of this call:
 // the callback runs synchronously on the calling thread, so a thread-id stamp identifies it.
 func getOrCreate(c *lru.Cache[int, int], k int, created *bool) (int, error) {
